@@ -12,6 +12,7 @@ from .rules_struct import (COLLECT_INTO_CORE, FIND_FAMILY, ORDERED_COLLECTS, ear
                            merge_functions, BAG_HEADS, is_own_prim)
 from .rules_flow import P, norm_bool, runner_reduce_sites, task_chunk_param, PARAMS
 from . import lin
+from .opa import FN_CALLS
 
 
 def items(ctx):
@@ -326,6 +327,55 @@ def c08_spawn(ctx):
                          % strip_generics(entry), site.body.where(site.c['line']))
     out.floor('spawn_events', n, 2 if not ctx.fixture else 0)
     out.floor('hosts', len(M.hosts), 1 if not ctx.fixture else 0)
+    return out
+
+
+# ======================================================================================= C05-WORKER
+@rule('C05-WORKER', 'while the source has not reported HasMore::No, every path through a spawn host starts at least one worker (or runs the task itself)')
+def c05_worker(ctx):
+    """Nothing pulls from the source except the thread tasks.  A host that can return without having started one - while the
+    source still reports elements - leaves those elements unvisited (the output is short, a match is missed).  Decided per
+    has_more answer: the host is re-analysed with every has_more() observation fixed to Yes(_) / Maybe, the branches this
+    decides are pruned, and in the remaining flow graph every entry-to-return path must pass through a spawn event or a direct
+    call of the task."""
+    out = RuleOut('C05-WORKER')
+    F = ctx.facts
+    M = spawn_model(ctx)
+    HM = 'orx_concurrent_iter::HasMore'
+    n = 0
+    for hn, h in sorted(M.hosts.items()):
+        hb = h['body']
+        hk = key_of(hb)
+        cfg = ctx.cfg(hb)
+        if not h['events']:
+            continue
+        n += 1
+        for vname in ('Yes', 'Maybe'):
+            dv = F.discr_of(HM, F.variant_index(HM, vname))
+            r = ctx.opa.run(hb.name, seeds={'discr_method': {'has_more': dv}, 'key': ('hm-all', dv)})
+            S = {ev.bb for ev in h['events']}
+            for bb, c in r.call_sites():
+                if c['decl'] in FN_CALLS and c['args'] and c['args'][0][0] == 'param' and bb not in S:
+                    S.add(bb)
+            succ = {}
+            for bb in cfg.succ:
+                if bb in r.switches:
+                    succ[bb] = list(r.switches[bb][1])
+                else:
+                    succ[bb] = cfg.succ[bb]
+            seen = cfg.reach(0, avoid=S, succ=succ)
+            esc = sorted(x for x in cfg.returns if x in seen)
+            key = 'C05-WORKER/%s/%s' % (hk, vname)
+            out.inst(key, not esc, 'has_more = %s: %d worker-start blocks cut every entry-to-return path' % (vname, len(S)),
+                     sample={'host': hk, 'has_more': vname, 'worker_start_blocks': sorted(S)})
+            if esc:
+                # name the deciding branch: the last switch on the escaping path whose other edge leads to a worker start
+                why = ''
+                for sbb, (d, tg) in sorted(r.switches.items()):
+                    if sbb in seen and len(tg) > 1 and any(t in S or (cfg.reach(t, succ=succ) & S) for t in tg) and any(set(cfg.returns) & cfg.reach(t, avoid=S, succ=succ) for t in tg):
+                        why = ' (decided by `%s` at %s)' % (t_str(d)[:160], hb.where(hb.blocks[sbb]['term'].get('line')))
+                out.fail(key, '%s can return without having started a worker although the source reports HasMore::%s%s: nobody pulls the remaining elements, so they never reach the pipeline' % (hk, vname, why), hb.where())
+    out.floor('hosts', n, 1 if not ctx.fixture else 0)
     return out
 
 
@@ -1577,6 +1627,48 @@ def c01_reserve(ctx):
     return out
 
 
+@rule('C06-BRIDGE', 'a growable vector the crate builds itself and sends through the concurrent-capacity reservation comes from a constructor, not from a data conversion')
+def c06_bridge(ctx):
+    """The reservation `reserve_maximum_concurrent_capacity` is the dependency's (T3).  DESIGN 7 records that orx-split-vec does
+    not honour it for vectors whose fragment table was sized by their data (`SplitVec::from(Vec)` of more than 131068 elements:
+    table index out of bounds).  For targets the *user* builds that is a limit of T3; a bridge the crate builds itself must not be
+    made that way - the previous contents of a Vec / FixedVec target would decide whether collect_into panics and loses them."""
+    out = RuleOut('C06-BRIDGE')
+    F = ctx.facts
+    reservers = set()
+    for b in F.fn_bodies():
+        for bb, t in b.calls():
+            if method(t) == 'reserve_maximum_concurrent_capacity' and not t.get('local'):
+                reservers.add(key_of(b))
+    n = 0
+    CONV = {'from', 'into', 'from_iter', 'collect', 'try_from', 'try_into'}
+    for b in F.fn_bodies():
+        r = None
+        for bb, t in b.calls():
+            if res(t) not in reservers:
+                continue
+            r = r or ctx.run(b.name)
+            c = r.calls.get(bb)
+            if c is None or not c['args']:
+                continue
+            n += 1
+            key = 'C06-BRIDGE/%s/%s' % (key_of(b), method(t))
+            bad = None
+            for alt in alternatives(c['args'][0]):
+                x = alt
+                while x is not None and x[0] in ('mut', 'ref'):
+                    x = x[1]
+                if x is not None and x[0] == 'call' and method_of_term(x) in CONV:
+                    bad = x
+            out.inst(key, bad is None, t_str(c['args'][0])[:120], sample={'fn': key_of(b), 'reserving_callee': strip_generics(res(t)), 'receiver': t_str(c['args'][0])[:160]})
+            if bad is not None:
+                out.fail(key, '%s sends %s through %s, which reserves concurrent capacity on it: the fragment table of a vector converted from data is sized by that data, and the dependency\'s reservation fails for such tables (index out of bounds above 131068 previous elements) - the target and its contents are lost'
+                         % (key_of(b), t_str(bad)[:100], strip_generics(res(t))), b.where(c['line']))
+    out.count('reserving_fns', len(reservers))
+    out.floor('bridge_sites', n, 2 if not ctx.fixture else 0)
+    return out
+
+
 # ======================================================================================= composed closures
 def composed_closure_sites(ctx):
     """(parent body, closure body, [(capture name, type param, origin term)]) for closures that capture user closures"""
@@ -1751,6 +1843,49 @@ def is_step_call(t):
     return is_pull_call(t) or decl(t) == 'std::iter::Iterator::next'
 
 
+EAGER_ITER_METHODS = {'collect', 'fold', 'count', 'sum', 'product', 'last', 'for_each', 'max', 'min', 'max_by', 'min_by', 'max_by_key', 'min_by_key',
+                      'reduce', 'partition', 'unzip', 'collect_into', 'try_fold', 'try_for_each', 'extend', 'from_iter', 'for_each_concurrent'}
+
+
+@rule('C10-LAZYINNER', 'a composed closure hands the values of one element downstream lazily: it never drains an iterator fed by a user closure')
+def c10_lazyinner(ctx):
+    """A transformation composes the user closures into one closure evaluated per element by the kernels; the early-exit
+    kernels stop pulling from the value that closure returns as soon as a match is seen.  That only bounds the work if the
+    closure itself did not already evaluate everything: a draining call (collect, fold, count, ..) inside the composed closure,
+    on an iterator whose items come from a user closure, evaluates every value of the element before the first is examined."""
+    out = RuleOut('C10-LAZYINNER')
+    F = ctx.facts
+    n = 0
+    seen = set()
+    for (pb, cb, info) in composed_closure_sites(ctx):
+        if cb.name in seen:
+            continue
+        seen.add(cb.name)
+        n += 1
+        key = 'C10-LAZYINNER/' + key_of(cb)
+        bad = []
+        for body in [cb] + F.closures_in(cb, recursive=True):
+            r = ctx.run(body.name)
+            for bb, c in r.call_sites():
+                t = c['t']
+                m = method(t)
+                if m not in EAGER_ITER_METHODS:
+                    continue
+                d = decl(t)
+                if not (d.startswith(ITER) or d.endswith('Extend::extend') or d.endswith('FromIterator::from_iter') or 'IntoIterator' in d):
+                    continue
+                fed = [x for a in c['args'] for x in subterms(a) if x[0] == 'call' and (strip_generics(x[1]) in FN_CALLS or x[1] in FN_CALLS)
+                       and x[2] and x[2][0][0] == 'param']
+                if fed:
+                    bad.append((body, c, m, fed[0]))
+        out.inst(key, not bad, 'no draining call on user-fed iterators', sample={'closure': key_of(cb), 'built_in': key_of(pb), 'captures': [cn for (cn, _, _) in info]})
+        for (body, c, m, fed) in bad[:1]:
+            out.fail(key, '%s (built by %s) calls `%s` on an iterator fed by the user closure %s: every value of an element is evaluated before the first one is handed on, so an early-exit terminal no longer stops at the match (and never returns for an endless inner iterator)'
+                     % (key_of(cb), key_of(pb), m, t_str(fed[2][0])), body.where(c['line']))
+    out.floor('composed_closures', n, 20 if not ctx.fixture else 0)
+    return out
+
+
 @rule('C05-ONCE', 'a by-reference user closure is evaluated at most once per element (between two consecutive pulls)')
 def c05_once(ctx):
     out = RuleOut('C05-ONCE')
@@ -1805,6 +1940,46 @@ def c05_once(ctx):
             if bad:
                 out.fail(key, '%s: the by-reference closure `%s` can be evaluated twice on the same element (a second call is reachable without an intervening pull)' % (key_of(b), u), b.where(b.blocks[bad[1]]['term'].get('line')))
     out.floor('by_ref_closure_uses', n, 15 if not ctx.fixture else 0)
+    return out
+
+
+@rule('C05-MERGE', 'only the worker tasks evaluate the per-element closures: what a kernel hands to the runner besides the task contains no stage closure')
+def c05_merge(ctx):
+    """The tasks evaluate each stage closure once per element (C05-ONCE, C05-VISIT).  Everything else a kernel passes to a runner
+    entry - the operator that merges per-thread results - runs once per merge step on values that already went through the
+    stages.  A unary stage closure (map / filter / predicate / key) reachable from such an argument is evaluated again on
+    elements the tasks have already shown it.  The binary operator of the reduce family is the one closure that belongs there."""
+    from .rules_struct import user_closure_values
+    out = RuleOut('C05-MERGE')
+    F = ctx.facts
+    S = ctx.slots
+    n = 0
+    for (bn, bb, entry) in sorted(S.runner_call_sites):
+        b = F.bodies[bn]
+        r = ctx.run(bn)
+        c = r.calls.get(bb)
+        if c is None:
+            continue
+        n += 1
+        task_clo = S.task_of_site.get((bn, bb), (None, []))[0]
+        fb = b.fn_bounds()
+        key = 'C05-MERGE/%s/%s' % (key_of(b), strip_generics(entry).split('::')[-1])
+        bad = []
+        for i, a in enumerate(c['args']):
+            if a is None:
+                continue
+            if a[0] == 'closure' and a[1] == task_clo:
+                continue
+            if a[0] == 'ref' and len(a) > 1 and isinstance(a[1], tuple) and a[1][:2] == ('closure', task_clo):
+                continue
+            for (x, tp) in user_closure_values(ctx, b, a):
+                if len(fb.get(tp, {}).get('by_ref', [])) == 1:
+                    bad.append((i, x, tp))
+        out.inst(key, not bad, 'non-task arguments hold no stage closure', sample={'kernel': key_of(b), 'entry': strip_generics(entry), 'task_closure': task_clo})
+        for (i, x, tp) in bad[:1]:
+            out.fail(key, '%s hands the stage closure %s (type parameter %s) to %s outside the task (argument %d): it is evaluated again, on the spawning thread, for values the workers already passed through it - more than once per element'
+                     % (key_of(b), t_str(x), tp, strip_generics(entry).split('::')[-1], i), b.where(c['line']))
+    out.floor('runner_calls', n, 10 if not ctx.fixture else 0)
     return out
 
 
